@@ -120,7 +120,7 @@ typedef struct {
 #define VS_CAP (1 << 20)
 static vs_rec_t *recs;
 static int64_t nrec, seqctr, ndone, in_body;
-static int vs_rank, vs_expected; static double vs_tq; static char vs_logpath[1024];
+static int vs_rank, vs_expected, vs_armed; static double vs_tq; static char vs_logpath[1024];
 static char *notes; static size_t notes_len, notes_cap; static pthread_mutex_t notes_mu = PTHREAD_MUTEX_INITIALIZER;
 static pthread_mutex_t inv_mu = PTHREAD_MUTEX_INITIALIZER;
 typedef struct { int cls, np, params[VS_MAXP], count; } vs_inv_t;
@@ -155,6 +155,7 @@ static void *vs_watchdog(void *arg)
     int64_t last = -1; double idle = 0;
     for (;;) {
         struct timespec ts = {0, 100 * 1000 * 1000}; nanosleep(&ts, NULL);
+        if (!__atomic_load_n(&vs_armed, __ATOMIC_SEQ_CST)) continue;   /* initialisation (MPI_Init, parsec_init) is not "no progress" */
         int64_t cur = __atomic_load_n(&nrec, __ATOMIC_SEQ_CST) + __atomic_load_n(&ndone, __ATOMIC_SEQ_CST);
         if (cur != last || __atomic_load_n(&in_body, __ATOMIC_SEQ_CST) > 0) { last = cur; idle = 0; continue; }
         idle += 0.1;
@@ -223,5 +224,6 @@ void vs_note(const char *fmt, ...)
     memcpy(notes + notes_len, buf, n); notes_len += n;
     pthread_mutex_unlock(&notes_mu);
 }
+void vs_arm(void) { __atomic_store_n(&vs_armed, 1, __ATOMIC_SEQ_CST); }
 void vs_finish(void) { vs_write_log("FINISHED"); }
 void vs_spin(int iters) { volatile int x = 0; for (int i = 0; i < iters; i++) x += i; (void)x; }
